@@ -46,6 +46,16 @@ CLAIMS = {
             '(independent numpy lstsq).',
             AX + 'hand-written model lib/GraphModel.v (dictionaries in insertion order, slice writes as pointwise block writes) validated on every run by an EXACT integer correspondence against graph.py; spsolve is not modelled (theorems quantify over every increment / every solution of H dx = -b); lil_matrix, dict order and set membership are modelled, not verified.' + TR,
             'Coq proof (Gauss-Newton algebra over GNSpec: flat-to-block sums, symmetry of Omega) + exact integer correspondence + lstsq oracle'),
+    'C05': ('proof',
+            'PARTIAL. Theorem C05 (coq/props/C05.v) proves the part that is logic: the chi2 of an edge along a boxplus perturbation is differentiable '
+            'with derivative built from the error and the CODE Jacobian (generic quad_derive + C01; instance SE(3) odometry), a state is first-order '
+            'stationary iff the assembled gradient vanishes, the Gauss-Newton increment is a descent direction (b.dx = -dx^T H dx), a consistent '
+            'configuration has chi2 = 0 and zero gradient, the stopping rule never reports convergence on an increase; and it REFUTES that the stopping '
+            'rule alone implies final chi2 <= initial chi2. NOT proved (and not provable with what is installed): the quantitative local-convergence claim '
+            '-- basin of attraction of un-damped Gauss-Newton and the double-precision Newton decrement through SuperLU; that half is a calibrated SOAK TEST '
+            '(bounds in DESIGN.md section 5/C05 and in the evidence), reported as a test.',
+            AX + 'hand-written model lib/GraphModel.v validated by the exact integer correspondence; spsolve not modelled; ' + TR + 'OptLoopR (C12) for the stopping rule.',
+            'Coq proof (Coquelicot derivative of the quadratic form, sum algebra over GNSpec) + calibrated soak test for convergence'),
     'C06': ('proof',
             'Theorem C06 (coq/props/C06.v): on a fixed vertex the assembled gradient is 0 and the Hessian row/column is the identity pattern, so ANY '
             'solution of the normal equations has a zero increment there; the update loop skips fixed vertices, so they keep their pose for any number '
